@@ -206,6 +206,24 @@ var _ = bufio.NewReader
 //@ func NewFromString [C01]
 //@   ensures [lexer-ready] result != nil && fresh(result) && okL(result) && len(result.peeks) == 0 && result.customs != nil
 
+// character classes and the token constructor are used through their bodies
+//@ func isLetter [C01]
+//@   inline
+//@ func isDigit [C01]
+//@   inline
+//@ func isDecimalDigit [C01]
+//@   inline
+//@ func isHexDigit [C01]
+//@   inline
+//@ func isLongStringDelimiter [C01]
+//@   inline
+//@ func newToken [C01]
+//@   inline
+//@ func (*Lexer).pushToken [C01]
+//@   inline
+//@ func (*Lexer).RegisterCustomTokens [C01]
+//@   inline
+
 // the sweep: no reachable panic anywhere in the package
 //@ forall-funcs .* [C01]
 //@   requires? okL(l)
